@@ -7,6 +7,7 @@ pub mod net;
 pub mod p28;
 pub mod p28c;
 pub mod p29;
+pub mod p29t;
 pub mod p30;
 pub mod p31p;
 pub mod p32;
@@ -15,6 +16,7 @@ pub mod p34p;
 pub mod p39o;
 pub mod p39p;
 pub mod sched;
+pub mod t33;
 
 use simcore::runner::{Engine, Prop, Scenario};
 use simcore::{Outcome, Sim};
@@ -106,6 +108,9 @@ macro_rules! seq_macro_lite {
 fn mx_plain<const I: usize>(sim: &mut Sim) -> Outcome {
     crate::guard(mx::all()[I].name, sim, |sim| mx::run(I, false, sim))
 }
+fn t33_run<const I: usize>(sim: &mut Sim) -> Outcome {
+    crate::guard(t33::all()[I].name, sim, |sim| t33::run(I, sim))
+}
 fn mx_weak<const I: usize>(sim: &mut Sim) -> Outcome {
     crate::guard(mx::all()[I].name, sim, |sim| mx::run(I, true, sim))
 }
@@ -191,6 +196,7 @@ fn main() {
             id: "C29",
             scenarios: {
                 let mut v = scenarios!(p29);
+                v.extend(scenarios!(p29t));
                 v.extend(mx_scenarios(false, mx::in_c29));
                 v
             },
@@ -251,7 +257,13 @@ fn main() {
         },
         Prop {
             id: "C33",
-            scenarios: scenarios!(p33),
+            scenarios: {
+                let mut v = scenarios!(p33);
+                // type-driven table: (producer, transformer) pairs, oracle from the claimed bound
+                let table = d512!(t33_run);
+                v.extend(t33::all().iter().enumerate().map(|(i, t)| Scenario { name: t.name, weight: 1, run: table[i] }));
+                v
+            },
             quick_runs: 1_500_000,
             thorough_runs: 100_000_000,
             rule: "each run picks one corpus flow producing a collection whose type promises monotone growth (count() and other Monotonic singletons, value_counts() = MonotonicValue, keyed folds/reduces = keys only added, keyed first() = BoundedValue observed as a map, counts behind a TCP hop, per-member keyed state), observed by a per-tick snapshot shim; draws inputs (<= 12 items incl. duplicates and late keys) and a seeded tick partition / network schedule and checks the whole per-tick history. Distinct = distinct hash of (entry, realised decision trace); non-trivial = at least one item flowed AND the schedule is non-canonical AND the history holds at least two distinct snapshots.",
